@@ -241,6 +241,39 @@ fn value_case(rep: &mut Report, seed: u64, index: u64) {
     }
 }
 
+/// Values of a SIZE the generator never makes: byte strings and strings at and around 2^16 and 2^20 bytes through every
+/// encoding (chunked or streamed encoders tend to go wrong exactly at their piece size).
+fn large_values(rep: &mut Report) {
+    for len in [65535usize, 65536, 65537, (1 << 20) - 1, 1 << 20, (1 << 20) + 1, 3 << 20] {
+        let bytes: Vec<u8> = (0..len).map(|i| (i * 131 % 251) as u8).collect();
+        let text: String = (0..len).map(|i| (b'a' + (i % 26) as u8) as char).collect();
+        let vals = vec![
+            Variant::BinaryString(bytes.clone().into()),
+            Variant::SharedString(SharedString::new(bytes.clone())),
+            Variant::String(text),
+            Variant::Tags(vec!["t".repeat(len / 2), "u".repeat(len / 2)].into()),
+        ];
+        for v in vals {
+            let ty = v.ty();
+            let orig = canon::digest(&canon::value(&v, &refstr));
+            rep.evaluations += 1;
+            rep.count(&format!("large.{:?}", ty));
+            let replay = json!({"cmd": "c17", "part": "large", "type": format!("{:?}", ty), "len": len});
+            let mut check = |name: &str, back: Result<Result<Variant, String>, crate::report::PanicInfo>| match back {
+                Ok(Ok(b)) if canon::digest(&canon::value(&b, &refstr)) == orig => {}
+                Ok(Ok(_)) => rep.violation(&format!("C17:large:{}:changed:{:?}", name, ty), &format!("a {:?} of {} bytes came back changed through {}", ty, len, name), replay.clone(), J::Null),
+                Ok(Err(e)) => rep.violation(&format!("C17:large:{}:error:{:?}", name, ty), &format!("a {:?} of {} bytes does not survive {}: {}", ty, len, name, e.chars().take(120).collect::<String>()), replay.clone(), J::Null),
+                Err(p) => rep.violation(&format!("C17:large:{}:panic:{:?}", name, ty), &p.msg, replay.clone(), J::Null),
+            };
+            check("json.to_string", catch(|| serde_json::to_string(&v).map_err(|e| e.to_string()).and_then(|t| serde_json::from_str::<Variant>(&t).map_err(|e| e.to_string()))));
+            check("json.to_vec+from_reader", catch(|| serde_json::to_vec(&v).map_err(|e| e.to_string()).and_then(|t| serde_json::from_reader::<_, Variant>(&t[..]).map_err(|e| e.to_string()))));
+            check("json.to_value", catch(|| serde_json::to_value(&v).map_err(|e| e.to_string()).and_then(|t| serde_json::from_value::<Variant>(t).map_err(|e| e.to_string()))));
+            check("bincode", catch(|| bincode::serialize(&v).map_err(|e| e.to_string()).and_then(|t| bincode::deserialize::<Variant>(&t).map_err(|e| e.to_string()))));
+            check("msgpack", catch(|| rmp_serde::to_vec(&v).map_err(|e| e.to_string()).and_then(|t| rmp_serde::from_slice::<Variant>(&t).map_err(|e| e.to_string()))));
+        }
+    }
+}
+
 fn text_forms(rep: &mut Report, seed: u64, n: u64) {
     let mut r = Rng::derive(seed, "c17-text", 0);
     // Ref
@@ -488,6 +521,7 @@ pub fn main(a: &Args) {
     if shard == 0 {
         text_forms(&mut rep, seed, a.u64("text", 100000));
         small_domains(&mut rep);
+        large_values(&mut rep);
         blobs(&mut rep, seed, a.u64("blobs", 2000));
         all_values(&mut rep, &repo);
     }
